@@ -19,7 +19,7 @@
    (a termination measure over the tree); fairness of the scheduler and of Mutex/Condvar. *)
 From Coq Require Import NArith ZArith List Bool Arith.
 From Blue Require Import Gen.Const_Stall Lsm.Model Stall.Select Stall.Known Stall.Proto
-  Stall.ProofsBounds Stall.ProofsAdm Stall.ProofsNext Stall.ProofsTotal Stall.ProofsStall Stall.ProofsProto.
+  Stall.ProofsBounds Stall.ProofsAdm Stall.ProofsNext Stall.ProofsTotal Stall.ProofsStall Stall.ProofsRelief Stall.ProofsProto.
 Import ListNotations.
 Open Scope N_scope.
 
@@ -58,7 +58,9 @@ Theorem C20_stall_relievable_outside_known : forall o v,
 Proof. intros o v W _ K. now apply stall_relievable_outside_known. Qed.
 
 (* 5'. the class from the options alone: stall thresholds >= 1, mandatory thresholds not above
-       them, max_open_files above the number of files in levels 0 and 1 *)
+       them, max_open_files above the number of files in levels 0 and 1.  (Known.known_stall is
+       tighter: level 0 empty, or max_open_files <= |L0| + |L1 overlap| under the mandatory
+       condition, or max_open_files <= number of files in the tree without it.) *)
 Theorem C20_stall_relievable_options : forall o v,
   sel_wfb v = true -> should_stall_ingest o v = true -> options_safe o v = true ->
   exists out c, next_compaction o v [] = Ok out /\ nc_choice out = Some c.
@@ -79,6 +81,14 @@ Theorem C20_stall_relievable_refuted :
   exists o v, sel_wfb v = true /\ should_stall_ingest o v = true /\ known_stall o v = true /\
               next_compaction o v [] = Ok (mkNC None false).
 Proof. exists ex_opts_c, ex_tree_c. vm_compute. repeat split. Qed.
+
+(* (c') stall without the mandatory condition (mandatory threshold 100 above stall threshold 1) *)
+Definition ex_opts_c' : options := mkOpt 1 536870912 64 100 67108864 1 268435456.
+
+Theorem C20_stall_without_mandatory_refuted :
+  sel_wfb ex_tree_c = true /\ should_stall_ingest ex_opts_c' ex_tree_c = true /\ should_mandatory ex_opts_c' ex_tree_c = false /\
+  known_stall ex_opts_c' ex_tree_c = true /\ next_compaction ex_opts_c' ex_tree_c [] = Ok (mkNC None false).
+Proof. vm_compute. repeat split. Qed.
 
 Theorem C20_stall_on_empty_tree_refuted :
   sel_wfb ex_tree_a = true /\ should_stall_ingest ex_opts_a ex_tree_a = true /\ known_stall ex_opts_a ex_tree_a = true /\
@@ -157,16 +167,17 @@ Theorem C20_tables_cover_levels :
 Proof. split; reflexivity. Qed.
 
 (* The hypotheses are satisfiable by a non-trivial object: a stalled tree with default options on
-   which the selector picks the compaction out of level 0 (12 files in L0, one in L1). *)
+   which the selector picks a compaction (12 files in L0, two in L1 that cannot move trivially:
+   the mandatory compaction out of level 0 is replaced by the smaller one that clears level 1). *)
 Definition ex_opts_default : options := mkOpt 524288 536870912 64 4 67108864 12 268435456.
 Definition ex_tree_stalled : version :=
   map (fun i => ex_file i 97 122 (100 + i) 1000) [1; 2; 3; 4; 5; 6; 7; 8; 9; 10; 11; 12]
-  :: [ex_file 20 98 99 1 5000] :: [ex_file 21 97 122 0 9000000] :: repeat [] 13.
+  :: [ex_file 20 97 109 1 5000; ex_file 21 109 122 2 5000] :: repeat [] 14.
 Example ex_stalled_is_relieved :
   sel_wfb ex_tree_stalled = true /\ should_stall_ingest ex_opts_default ex_tree_stalled = true /\
   known_stall ex_opts_default ex_tree_stalled = false /\
   match next_compaction ex_opts_default ex_tree_stalled [] with
-  | Ok (mkNC (Some c) _) => (clower (cc c) =? 0)%nat && (len (cinputs (cc c)) =? 13)
+  | Ok (mkNC (Some c) _) => (clower (cc c) =? 1)%nat && (len (cinputs (cc c)) =? 2)
   | _ => false
   end = true.
 Proof. vm_compute. repeat split. Qed.
